@@ -303,7 +303,7 @@ def execute(cfg: kaisa.Config, hist: list[dict[str, Any]], seed: int,
                                     for n, l in rr.registered()},
                         'inc': bool(arg)}
                 elif act == 'load':
-                    rr.apply(['load', bool(arg)])
+                    rr.apply(['load', bool(arg)], set_ctx=False)
                     se = rr.saved_exact
                     bad = []
                     if rr.pre.steps != se['steps']:
@@ -342,6 +342,9 @@ def execute(cfg: kaisa.Config, hist: list[dict[str, Any]], seed: int,
                         for n in a.get_layers() for f in a.get_factors(n))
                 elif act == 'mem':
                     out['mem'] = dict(rr.pre.memory_usage())
+                    out['mem_held'] = sum(
+                        max(b, 0) for _, l in rr.registered()
+                        for b in kaisa.layer_holdings(l).values())
                 else:
                     raise ValueError(act)
         except simdist.SimStall:
@@ -364,6 +367,15 @@ def execute(cfg: kaisa.Config, hist: list[dict[str, Any]], seed: int,
                            for n, l in rr.registered()}
             out['gw'] = {n: rr.pre._assignment.is_grad_worker(n)
                          for n, _ in rr.registered()}
+            if i == 0 or act == 'load':
+                a = rr.pre._assignment
+                out['assign'] = {
+                    n: {'invA': a.inv_worker(n, 'A'),
+                        'invG': a.inv_worker(n, 'G'),
+                        'gw': a.is_grad_worker(n),
+                        'a': l.module.a_factor_shape[0],
+                        'g': l.module.g_factor_shape[0]}
+                    for n, l in rr.registered()}
             if act == 'step':
                 out['grads'] = rr.grads()
                 rr.sgd()
@@ -569,7 +581,7 @@ def replay(cfg: kaisa.Config, hist: list[dict[str, Any]], seed: int,
         for r in range(cfg.W)}
     return {'mismatches': mism, 'stats': stats, 'comm': comm,
             'events': len(world.events), 'step_grads': step_grads,
-            'world': world}
+            'world': world, 'allrecs': allrecs}
 
 
 def factor_tol_scale(dt: torch.dtype) -> float:
